@@ -311,9 +311,9 @@ Fixpoint list_eqb2 {A B} (f : A -> B -> bool) (a : list A) (b : list B) : bool :
 
 Definition chunks_eqb : list (list Z) -> list (list Z) -> bool := list_eqb zlist_eqb.
 
-Definition res_eqb (r : res) (obs : option (list (list Z))) : bool :=
+Definition res_eqb (r : res) (obs : option (list (list (Z * Z)))) : bool :=
   match r, obs with
-  | ROk o, Some o' => chunks_eqb o o'
+  | ROk o, Some o' => chunks_eqb o (map rle_expand o')
   | RPanic, None => true
   | _, _ => false
   end.
@@ -323,9 +323,10 @@ Definition triple_eqb (a b : Z * Z * Z) : bool :=
 
 Inductive c26_case :=
   (* file (RLE), terminator, lookahead, chunk pattern, trailing empty chunk, ranges,
-     and for every range the exact sequence of chunks the real stream yielded (None = panic) *)
+     and for every range the exact sequence of chunks (each RLE) the real stream yielded
+     (None = panic) *)
   | CStream (file : list (Z * Z)) (term L : Z) (pat : list Z) (trail : bool)
-            (ranges : list (Z * Z)) (obs : list (option (list (list Z))))
+            (ranges : list (Z * Z)) (obs : list (option (list (list (Z * Z)))))
   (* target_partitions, repartition_file_min_size, source files (effective ranges),
      observed groups (None = repartition returned None), each entry (file index, start, end) *)
   | CSplit (n min_size : Z) (files : list (Z * Z)) (obs : option (list (list (Z * Z * Z))))
